@@ -51,7 +51,7 @@ ASSUMPTIONS = [
     "SDP set_baudrate is outside the operations the property lists",
     "bounded time = number of driver read calls <= 10 x fault-free device->host length + 1000 (logical, virtual clock)",
 ]
-REQUIRED_COUNTERS = ["mboot_ops_judged", "mboot_fault_runs", "mboot_status_mirror", "transcript_ops_checked",
+REQUIRED_COUNTERS = ["memory_lists", "mboot_ops_judged", "mboot_fault_runs", "mboot_status_mirror", "transcript_ops_checked",
                      "sdp_ops_judged", "sdp_fault_runs", "sdps_files"]
 CASE_TIMEOUT_S = 600
 WATCHDOG_S = {"quick": 1500, "thorough": 7200}
@@ -187,6 +187,7 @@ class Link:
         self.queue: list = []  # report mode
         self.events: list = []
         self.emissions: list = []  # (start, kind, raw) as the device produced them
+        self.cause: dict = {}      # emission start / index -> the host frame that made the device produce it
         self.pos = 0
         self.reads = 0
         self.max_reads = max_reads
@@ -206,6 +207,7 @@ class Link:
             if self.stream:
                 start = self.pos
                 self.pos += len(raw)
+                self.cause[start] = data
                 self.emissions.append((start, kind, raw))
                 self.inbuf += self.fault.apply_stream(start, kind, raw) if self.fault else raw
             else:
@@ -413,6 +415,8 @@ def mboot_call(mb, op):  # noqa: C901
         return mb.flash_erase_all(op["mem"])
     if o == "erase_all_unsecure":
         return mb.flash_erase_all_unsecure()
+    if o == "get_memory_list":
+        return mb.get_memory_list()
     if o == "get_property":
         return mb.get_property(op["tag"], op["index"])
     if o == "set_property":
@@ -1140,6 +1144,8 @@ def _fault_candidates(tr, emissions, rng):
             if kind == "ack":
                 cands.append(("nak", start, 0))
                 cands.append(("abort", start, 0))
+                for bit in range(8):  # every single-bit corruption of the (unprotected) type byte
+                    cands.append(("flip", start + 1, bit))
     else:
         for idx, kind, raw in emissions:
             plen = struct.unpack_from("<H", raw, 2)[0]
@@ -1254,6 +1260,17 @@ def run_mboot_fault_case(ctx, cfg, ops, rng, budget, cands_fn=None):
                     ctx.ok(sig + ["tolerated"])
                 break
             succ = reported_success(out) or (op["op"] == "load_image" and out.exc is None and out.ret is True)
+            ack_of = bytes(sess.link.cause.get(f.pos - f.info["offset"], b"")[:2]) if kind == "flip" and f.info["emission"] == "ack" else b""
+            cause = bytes(sess.link.cause.get(f.pos - f.info["offset"], b"")) if ack_of else b""
+            # an auxiliary GetProperty (the packet-size query McuBoot makes on its own) may fail silently by design: the
+            # rule is about the command the caller asked for
+            aux = len(cause) > 6 and cause[6] == 0x07 and op["op"] not in ("get_property", "get_property_ext")
+            if succ and kind == "flip" and f.info["emission"] == "ack" and f.info["offset"] == 1 and ack_of == bytes([MD.START, MD.FT_CMD]) and not aux:
+                # the acknowledge frame has no CRC: its type byte is all the host has.  A frame whose type byte is not
+                # ACK (any single-bit corruption of 0xA1) tells the host nothing, so the call must not go on as if the
+                # device had acknowledged - whatever the device really did.
+                ctx.violation("mboot-uart-corrupted-ack-of-command-frame-taken-for-acknowledge", dict(detail, type_byte=hex(f.info["new"][1])))
+                break
             if succ:
                 cls, viol = judge_mboot(sess, op, out, j0, loose0, peek)
                 if viol or cls not in ("ok", "ok-empty", "reset-no-response-tolerated"):
@@ -1686,6 +1703,9 @@ SDPS_FAMILIES_FALLBACK = ["mimx8x", "mimx9352", "mimx28"]
 def cases(tier, seed):
     th = tier == "thorough"
     yield {"kind": "directed_mboot"}
+    for tr in ("uart", "usb"):
+        for k in range(40 if th else 8):
+            yield {"kind": "mboot_memory_list", "transport": tr, "k": k}
     yield {"kind": "directed_sdp"}
     for tr in ("uart", "usb"):
         for k in range(5000 if th else 500):
@@ -1752,11 +1772,55 @@ def _directed_sdp(ctx):
             run_sdp_fault_case(ctx, cfg, ops, ctx.rng, 100, cands=cands)
 
 
+def _memory_list_case(ctx, case):
+    """get_memory_list() on a device with several internal flash / RAM regions: every region must be reported with ITS
+    start, size and sector size (each is a GetProperty with the region index), in the device's order."""
+    rng = ctx.rng
+    cfg = make_mboot_cfg(rng, case["transport"], small=True)
+    nf, nr = rng.randrange(1, 5), rng.randrange(1, 4)
+    fl, a = [], 0x0800_0000 * rng.randrange(0, 3)
+    for _ in range(nf):
+        sec = core.pick(rng, [0x100, 0x200, 0x800, 0x1000, 0x2000, 0x8000])
+        size = sec * rng.randrange(1, 64)
+        fl.append((a, size, sec))
+        a += size + sec * rng.randrange(0, 4)
+    rm, a = [], 0x2000_0000
+    for _ in range(nr):
+        size = 0x400 * rng.randrange(1, 200)
+        rm.append((a, size))
+        a += size + 0x1000 * rng.randrange(0, 3)
+    regions = {MD.P_FLASH_START: [[x[0]] for x in fl], MD.P_FLASH_SIZE: [[x[1]] for x in fl], MD.P_FLASH_SECTOR_SIZE: [[x[2]] for x in fl],
+               MD.P_RAM_START: [[x[0]] for x in rm], MD.P_RAM_SIZE: [[x[1]] for x in rm]}
+    sess = MbootSession(cfg, plans={"prop_regions": regions})
+    detail = {"cfg": cfg, "flash_regions": [[hex(v) for v in x] for x in fl], "ram_regions": [[hex(v) for v in x] for x in rm]}
+    if sess.open_exc is not None:
+        raise core.Inconclusive(f"open failed on a fault-free link: {core.exc_brief(sess.open_exc)}")
+    out = sess.run({"op": "get_memory_list"})
+    ctx.count("memory_lists")
+    if out.exc is not None:
+        if not documented(out.exc):
+            raise out.exc
+        ctx.violation("mboot-get_memory_list-fails-on-fault-free-link", dict(detail, exception=core.exc_brief(out.exc)))
+        return
+    got_f = [(r.index, r.start, r.end - r.start + 1, r.sector_size) for r in out.ret.get("internal_flash", [])]
+    got_r = [(r.index, r.start, r.end - r.start + 1) for r in out.ret.get("internal_ram", [])]
+    want_f = [(i, *x) for i, x in enumerate(fl)]
+    want_r = [(i, *x) for i, x in enumerate(rm)]
+    if got_f != want_f:
+        ctx.violation("mboot-get_memory_list-flash-regions-not-as-the-device-reports", dict(detail, got=[[hex(v) for v in x] for x in got_f]))
+    elif got_r != want_r:
+        ctx.violation("mboot-get_memory_list-ram-regions-not-as-the-device-reports", dict(detail, got=[[hex(v) for v in x] for x in got_r]))
+    else:
+        ctx.ok(["mboot", case["transport"], "get_memory_list", nf, nr, cfg["cmd_exception"]], sample=detail)
+
+
 def run_case(case, ctx):  # noqa: C901
     rng = ctx.rng
     kind = case["kind"]
     if kind == "directed_mboot":
         return _directed_mboot(ctx)
+    if kind == "mboot_memory_list":
+        return _memory_list_case(ctx, case)
     if kind == "directed_sdp":
         return _directed_sdp(ctx)
     if kind in ("mboot_hist", "mboot_big"):
